@@ -81,6 +81,8 @@ def run(ctx):
         combined(ctx, rng, xr, dask, ops)
     for i, rng in ctx.cases("fits", ctx.n(24, 600)):
         fits(ctx, rng, xr)
+    for i, rng in ctx.cases("selection", ctx.n(60, 1500)):
+        selection(ctx, rng, xr)
     tr.stats()
     sys.setswitchinterval(1e-5)   # multiply GIL hand-offs between native calls
     for i, rng in ctx.cases("stress", ctx.n(32, 400)):
@@ -202,6 +204,61 @@ def combined(ctx, rng, xr, dask, ops):
         rec.bad("combined", key, {"expression": "op(a) - op(b)", "got": diff.values, "want": want.values}, "results-of-different-datasets-mixed-in-one-computation")
         return
     rec.ok("combined", key)
+
+
+def selection(ctx, rng, xr):
+    """Site selection on dask-backed station datasets whose variables are chunked alike or differently (efth by two
+    times, wind by three, positions not at all): same stations, same values, no failure."""
+    rec = ctx.rec
+    nt, ns = int(rng.integers(3, 7)), int(rng.integers(3, 8))
+    f = np.linspace(0.05, 0.4, 5)
+    th = np.arange(0, 360, 90.0)
+    E = rng.random((nt, ns, 5, 4)) + np.arange(ns)[None, :, None, None]
+    lon = np.round(rng.uniform(100, 110, ns) * 8) / 8
+    lat = np.round(rng.uniform(-40, -30, ns) * 8) / 8
+    ds = xr.Dataset({"efth": (("time", "site", "freq", "dir"), E), "wspd": (("time", "site"), rng.uniform(0, 20, (nt, ns))),
+                     "dpt": (("time", "site"), rng.uniform(10, 90, (nt, ns)))},
+                    coords={"time": np.arange(nt), "site": np.arange(ns), "freq": f, "dir": th})
+    ds["lon"] = (("site",), lon)
+    ds["lat"] = (("site",), lat)
+    layout = str(rng.choice(["uniform", "efth_only", "different", "sites"]))
+    dc = ds.copy()
+    if layout == "uniform":
+        dc = ds.chunk({"time": 2})
+    elif layout == "efth_only":
+        dc["efth"] = ds["efth"].chunk({"time": 2})
+    elif layout == "different":
+        dc["efth"] = ds["efth"].chunk({"time": 2})
+        dc["wspd"] = ds["wspd"].chunk({"time": 3})
+        dc["dpt"] = ds["dpt"].chunk({"time": 1})
+    else:
+        dc = ds.chunk({"site": 1})
+    method = str(rng.choice(["idw", "nearest", "bbox"]))
+    qlon = [float(lon[0] + 0.25), float(lon[1] - 0.125)]
+    qlat = [float(lat[0] + 0.125), float(lat[1] + 0.25)]
+    kw = dict(method=method, tolerance=3.0)
+    if method == "idw":
+        kw["max_sites"] = 3
+    key = "sel:%s|chunks=%s" % (method, layout)
+    try:
+        r0 = ds.spec.sel(qlon, qlat, **kw)
+    except Exception as e:
+        rec.skip("selection", "in-memory selection raised %s" % type(e).__name__)
+        return
+    try:
+        sched, nw = SCHEDS[int(rng.integers(len(SCHEDS)))]
+        kwc = {"scheduler": sched}
+        if sched == "threads":
+            kwc["num_workers"] = nw
+        rc = dc.spec.sel(qlon, qlat, **kw).compute(**kwc)
+    except Exception as e:
+        rec.bad("selection", key, {"raised": repr(e)[:300], "layout": layout}, "raises-on-chunked-input")
+        return
+    bad = [v for v in r0.data_vars if not np.allclose(np.asarray(r0[v].values, dtype="float64"), np.asarray(rc[v].transpose(*r0[v].dims).values, dtype="float64"), rtol=1e-12, atol=0, equal_nan=True)]
+    if bad or not np.array_equal(r0["lon"].values, rc["lon"].values):
+        rec.bad("selection", key, {"variables_differ": bad, "layout": layout}, "chunked-result-differs")
+    else:
+        rec.ok("selection", key)
 
 
 def fits(ctx, rng, xr):
